@@ -23,6 +23,7 @@ from .core import Decider, HarnessError, Violation, canon, derive_seed, jsonable
 
 CHECKS = {
     "C07": "sr_world",
+    "C08": "coherence",
 }
 
 KNOWN_FINDINGS_FILE = os.path.join(env.VERIF_ROOT, "known_findings.json")
@@ -187,6 +188,9 @@ def worker_main(pid, tier, base_seed, wid, n_workers, out_path):
     import faulthandler
 
     faulthandler.enable()
+    import warnings
+
+    warnings.filterwarnings("ignore", category=RuntimeWarning)
     env.init_jax()
     mod = load_check(pid)
     known = load_known_findings(pid)
